@@ -105,6 +105,19 @@ def main():
             run.violation(f"sesame:raised:{cls}", f"{type(e).__name__}: {e} for {key_case} verbose={verb}", dict(kind="sesame", case=c, verbose=verb))
             continue
         got = [int(x) for x in rel] + [int(x) for x in cla]
+        # the verdicts are statements about the curve, not about the order in which its samples are stored: the same arrays
+        # reversed (a descending frequency axis, e.g. a curve converted from a period axis), whole range
+        if n_ % 9 == 0 and lo == NOEND and hi == NOEND and all(e_ in (0, 1) for e_ in exp) and not c.get("alts"):
+            try:
+                with contextlib.redirect_stdout(io.StringIO()):
+                    rel_r = sesame.reliability(c["lw"], c["nw"], FREQ[::-1].copy(), a[::-1].copy(), std[::-1].copy(), search_range_in_hz=r, verbose=0)
+                    cla_r = sesame.clarity(FREQ[::-1].copy(), a[::-1].copy(), std[::-1].copy(), sf, search_range_in_hz=r, verbose=0)
+                got_r = [int(x) for x in rel_r] + [int(x) for x in cla_r]
+            except Exception as e:
+                got_r = f"{type(e).__name__}: {e}"
+            if got_r != list(exp):      # (judged against the specification's verdicts; cases with a tie anywhere are left out)
+                run.violation("sesame:descending-axis", f"the same curve on a descending frequency axis gives {got_r}, the guideline says {list(exp)} for {key_case}",
+                              dict(kind="sesame-rev", case=c))
         bad = [names[i] for i in range(9) if exp[i] in (0, 1) and got[i] != exp[i]]
         if bad and c.get("alts"):
             if any(all(e_[i] not in (0, 1) or got[i] == e_[i] for i in range(9)) for e_ in c["alts"]):
